@@ -49,13 +49,13 @@ class BaseElementLocator
 
     template <class Allocator>
     explicit BaseElementLocator(const BaseElementLocator& locator, std::byte* old_memory_begin,
-                                std::size_t old_max_element_count, std::byte* new_memory_begin,
+                                std::size_t /*old_max_element_count*/, std::byte* new_memory_begin,
                                 std::size_t new_max_element_count, const Allocator& allocator)
         : last_element_(new_memory_begin + (locator.last_element_ - old_memory_begin))
     {
         element_addresses_.reserve(new_max_element_count, allocator);
         std::copy(locator.element_addresses_.begin(), locator.element_addresses_.end(), element_addresses_.begin());
-        element_addresses_.resize_from_capacity(old_max_element_count);
+        element_addresses_.resize_from_capacity(locator.element_addresses_.size());
     }
 
     template <class Allocator>
